@@ -244,6 +244,32 @@ fn ark_extras<F: FL>(ctx: &Ctx, rec: &mut Rec) {
     for x in ["(de)serialize_with_flags<EmptyFlags>", "(de)serialize_with_flags<TEFlags>", "(de)serialize_with_flags<SWFlags>", "FromStr", "Distribution<F>::sample", "From<BigInt>"] {
         rec.declare_form(&nm(x));
     }
+    // non-standard flag types: 4 and 8 flag bits do not fit into the spare bits of the last byte (an extra
+    // byte is emitted), 9 bits exceed what the format allows (NotEnoughSpace on both sides)
+    #[derive(Default, Clone, Copy, PartialEq, Debug)]
+    struct Nib(u8);
+    impl Flags for Nib {
+        const BIT_SIZE: usize = 4;
+        fn u8_bitmask(&self) -> u8 { self.0 << 4 }
+        fn from_u8(value: u8) -> Option<Self> { Some(Nib(value >> 4)) }
+    }
+    #[derive(Default, Clone, Copy, PartialEq, Debug)]
+    struct ByteFlag(u8);
+    impl Flags for ByteFlag {
+        const BIT_SIZE: usize = 8;
+        fn u8_bitmask(&self) -> u8 { self.0 }
+        fn from_u8(value: u8) -> Option<Self> { Some(ByteFlag(value)) }
+    }
+    #[derive(Default, Clone, Copy, PartialEq, Debug)]
+    struct Wide(u8);
+    impl Flags for Wide {
+        const BIT_SIZE: usize = 9;
+        fn u8_bitmask(&self) -> u8 { self.0 }
+        fn from_u8(value: u8) -> Option<Self> { Some(Wide(value)) }
+    }
+    rec.declare_form(&nm("(de)serialize_with_flags<4-bit flags>"));
+    rec.declare_form(&nm("(de)serialize_with_flags<8-bit flags>"));
+    rec.declare_form(&nm("(de)serialize_with_flags<9-bit flags> refused"));
     fn flag_rt<F: ark_ff::PrimeField, FL: Flags + PartialEq>(v: &F, fl: FL) -> Result<(Vec<u8>, usize), String> {
         let mut o = Vec::new();
         v.serialize_with_flags(&mut o, fl).map_err(|e| format!("serialize: {e:?}"))?;
@@ -277,6 +303,20 @@ fn ark_extras<F: FL>(ctx: &Ctx, rec: &mut Rec) {
                 for fl in [SWFlags::YIsPositive, SWFlags::YIsNegative, SWFlags::PointAtInfinity] {
                     out.push(("(de)serialize_with_flags<SWFlags>", flag_rt(&lv, fl), SWFlags::BIT_SIZE));
                 }
+                if i % 4 == 0 {
+                    for k in [0u8, 1, 0x8, 0xf, (i % 16) as u8] {
+                        out.push(("(de)serialize_with_flags<4-bit flags>", flag_rt(&lv, Nib(k)), 4));
+                    }
+                    for k in [0u8, 1, 0x80, 0xff, (i % 256) as u8] {
+                        out.push(("(de)serialize_with_flags<8-bit flags>", flag_rt(&lv, ByteFlag(k)), 8));
+                    }
+                    // 9 flag bits: both directions must refuse
+                    let mut o = Vec::new();
+                    let ser_refused = lv.serialize_with_flags(&mut o, Wide(1)).is_err();
+                    let de_refused = F::deserialize_with_flags::<_, Wide>(&[0u8; 64][..]).is_err();
+                    let verdict = if ser_refused && de_refused { Ok((vec![0u8; (f.bits + 9 + 7) / 8].iter().enumerate().map(|(j, _)| if j < n { to_le(v, n)[j] } else { 0 }).collect::<Vec<u8>>(), (f.bits + 9 + 7) / 8)) } else { Err(format!("9 flag bits: serialize refused = {ser_refused}, deserialize refused = {de_refused}")) };
+                    out.push(("(de)serialize_with_flags<9-bit flags> refused", verdict, 9));
+                }
                 out
             });
             match res {
@@ -296,7 +336,7 @@ fn ark_extras<F: FL>(ctx: &Ctx, rec: &mut Rec) {
                                 let mut vb = bytes.clone();
                                 if vb.len() > n {
                                     vb.truncate(n);
-                                } else if fbits > 0 {
+                                } else if fbits > 0 && fbits < 8 {
                                     let last = vb.len() - 1;
                                     vb[last] &= (0xffu16 >> fbits) as u8;
                                 }
